@@ -107,7 +107,8 @@ fn pass_1_internal(
     for (line, item) in &segment.items {
         match item {
             Item::Label(name) => {
-                if let Some(_) = common_context.set_label(name.clone(), (segment.t, cur_address)) {
+                let previous = common_context.set_label(name.clone(), (segment.t, cur_address));
+                if previous.is_some() || common_context.get_equ(name).is_some() {
                     // TODO: add display current string of mistake and previous location
                     bail!("Identifier {} is used twice, {}", name, line);
                 }
